@@ -118,6 +118,12 @@ mk_tables(void)
 	}
 }
 
+static const struct spell_s spellings[] = {
+	{"+5D", "+5d"}, {"-5D", "-5d"}, {"5D", "+5d"}, {"5d", "+5d"}, {"+5", "+5d"}, {"-5", "-5d"}, {"5", "+5d"},
+	{"+5W", "+5w"}, {"-5W", "-5w"}, {"5W", "+5w"}, {"5w", "+5w"},
+};
+#define NSPELL	((int)(sizeof(spellings) / sizeof(*spellings)))
+
 /* seam days: the W8 windows and the first and last day of every year */
 static int
 seam_day(const struct rc_day *p)
@@ -188,7 +194,7 @@ do_case(const struct rc_day *p, int c, struct dt_dt_s v, int u, int n, const str
 		++*c_memo;
 		return 0;
 	}
-	daisy = dt_dconv(DT_DAISY, r.d).daisy;
+	daisy = obs_daisy(r);
 	snprintf(got[O_DAISY], sizeof(got[O_DAISY]), "%u", daisy);
 	ok[O_DAISY] = !dt_unk_p(r) && daisy == (unsigned int)trd + 1U;
 	memset(got[O_DFLT], 0, sizeof(got[O_DFLT]));
@@ -214,7 +220,7 @@ do_case(const struct rc_day *p, int c, struct dt_dt_s v, int u, int n, const str
 			snprintf(txt, sizeof(txt), "%+d%s", -n, unit_name[u]);
 			if (mk_durs(&nd, txt) == 0) {
 				struct dt_dt_s r2 = apply_durs(r, &nd);
-				back = dt_dconv(DT_DAISY, r2.d).daisy;
+				back = obs_daisy(r2);
 				*c_eval += 2;
 			}
 			snprintf(got[O_INV], sizeof(got[O_INV]), "%u", back);
@@ -276,7 +282,9 @@ static const struct bind_s binds[] = {
 	{C_YD, "+1d", NULL}, {C_YD, "-31d", NULL}, {C_YD, "+366d", NULL}, {C_YD, "-1w", NULL}, {C_YD, "+53w", NULL}, {C_YD, "-1461d", NULL},
 	{C_YMCW, "+1d", NULL}, {C_YMCW, "-31d", NULL}, {C_YMCW, "+366d", NULL}, {C_YMCW, "-1w", NULL}, {C_YMCW, "+53w", NULL}, {C_YMCW, "-1461d", NULL},
 	{C_BIZDA, "+1d", NULL}, {C_BIZDA, "-31d", NULL}, {C_BIZDA, "+366d", NULL}, {C_BIZDA, "-1w", NULL}, {C_BIZDA, "+53w", NULL}, {C_BIZDA, "-1461d", NULL},
+	{C_EPOCH, "+1w", NULL}, {C_EPOCH, "-31d", NULL},
 	/* thorough only from here */
+	{C_EPOCH, "+53w", "%F"}, {C_EPOCH, "-1w", "%s"}, {C_YMCW0, "+1d", NULL}, {C_YMCW0, "-1w", "%F"}, {C_YWD0, "+1d", NULL}, {C_YWD0, "-1w", "%F"},
 	{C_YMD, "-1d", NULL}, {C_YMD, "+30d", NULL}, {C_YMD, "-365d", NULL}, {C_YMD, "+1w", NULL}, {C_YMD, "-52w", NULL}, {C_YMD, "+800d", NULL},
 	{C_YWD, "-1d", NULL}, {C_YWD, "+30d", NULL}, {C_YWD, "-365d", NULL}, {C_YWD, "+1w", NULL}, {C_YWD, "-52w", NULL}, {C_YWD, "+800d", NULL},
 	{C_YD, "-1d", NULL}, {C_YD, "+30d", NULL}, {C_YD, "-365d", NULL}, {C_YD, "+1w", NULL}, {C_YD, "-52w", NULL}, {C_YD, "+800d", NULL},
@@ -287,7 +295,7 @@ static const struct bind_s binds[] = {
 	{C_YMD, "+59d", "%F %G-W%V-%u"}, {C_YWD, "-60d", "%F"}, {C_YD, "+1w", "%F"}, {C_YMCW, "-1w", "%F"},
 	{C_BIZDA, "+7d", "%F"}, {C_LDN, "+1w", "%F"},
 };
-#define NBIND_QUICK	30
+#define NBIND_QUICK	32
 #define NBIND		((int)(sizeof(binds) / sizeof(*binds)))
 
 static void
@@ -296,10 +304,10 @@ bind_lib(const struct bind_s *b, const struct durs_s *ds, const struct rc_day *p
 	struct dt_dt_s v;
 
 	memset(got, 0, gsz);
-	if (!cal_text(b->cal, p, text, tsz)) {
+	if (!bind_text(b->cal, p, text, tsz)) {
 		return;
 	}
-	v = dt_strpdt(text, cal_ifmt[b->cal], NULL);
+	v = dt_strpdt(text, bind_ifmt(b->cal), NULL);
 	if (dt_unk_p(v)) {
 		return;
 	}
@@ -316,8 +324,8 @@ bind_cmdline(char *cmd, size_t csz, const struct bind_s *b, const char *tree)
 	if (tree) {
 		snprintf(pre, sizeof(pre), "'%s/src/dadd'", tree);
 	}
-	snprintf(cmd, csz, "%s%s%s%s%s%s %s", pre,
-		 cal_ifmt[b->cal] ? " -i " : "", cal_ifmt[b->cal] ? cal_ifmt[b->cal] : "",
+	snprintf(cmd, csz, "%s%s%s%s%s%s%s -- %s", pre,
+		 bind_ifmt(b->cal) ? " -i '" : "", bind_ifmt(b->cal) ? bind_ifmt(b->cal) : "", bind_ifmt(b->cal) ? "'" : "",
 		 b->ofmt ? " -f '" : "", b->ofmt ? b->ofmt : "", b->ofmt ? "'" : "", b->dur);
 }
 
@@ -346,7 +354,7 @@ do_binding(int k)
 		return;
 	}
 	for (rd = 0; rd < RC_NDAYS; rd++) {
-		if (cal_text(b->cal, rc_get(rd), text, sizeof(text))) {
+		if (bind_text(b->cal, rc_get(rd), text, sizeof(text))) {
 			fprintf(f, "%s\n", text);
 			nin++;
 		}
@@ -366,7 +374,7 @@ do_binding(int k)
 	for (rd = 0; rd < RC_NDAYS; rd++) {
 		const struct rc_day *p = rc_get(rd);
 		size_t l;
-		if (!cal_text(b->cal, p, text, sizeof(text))) {
+		if (!bind_text(b->cal, p, text, sizeof(text))) {
 			continue;
 		}
 		if (!fgets(line, sizeof(line), f)) {
@@ -441,6 +449,10 @@ main(int argc, char *argv[])
 
 	if (ex.cas) {
 		int c, u, n, rd, rcv;
+		if (!strncmp(ex.cas, "spell ", 6)) {
+			check_spellings(spellings, NSPELL);
+			return ex_replay_result(ex.nviol != 0, "documented duration spellings");
+		}
 		struct dt_dt_s v;
 		struct durs_s ds;
 		char txt[32];
@@ -464,7 +476,9 @@ main(int argc, char *argv[])
 	}
 
 	ex_meta("rule", "every state (day) of the reference successor machine 1601-01-01..4095-12-31 x %d calendars (text through the "
-		"public parser: ymd ywd yd ymcw ldn jdn mdn bizda; daisy = ymd text converted to the day count) x unit {d,w} x signed count n "
+		"public parser: ymd ywd yd ymcw ldn jdn mdn bizda; daisy = ymd text converted to the day count; epoch = the day's midnight as @SECONDS, which must "
+		"parse to the same value as -i %%s SECONDS; ymcw-w0 = ymcw with Sunday written 00 (the documented %%w), Sundays only; ywd-w0 = ISO week date read with "
+		"-i %%G-W%%V-%%w, Sunday written 00, Sundays only) x unit {d,w} x signed count n "
 		"(duration text through dt_io_strpdtdur, applied by dt_dtadd as dadd does); oracle: the result is the state n (7n) successor "
 		"steps on, observed as dt_dconv(DT_DAISY), as default output (parsed fields; padding free, Sunday 0|7) and as %%F; the consequences of the statement (n then -n is the identity, a then b is a+b) follow "
 		"from the single steps whenever the result is bit-identical with the parser's value of the target's text (that value's transitions are explored "
@@ -472,6 +486,7 @@ main(int argc, char *argv[])
 		"equal a value already observed to agree for the same (calendar, target) in the same year slice is not observed again (counted). "
 		"readings: results outside 1601..4095 are outside the property (skipped, counted); a bizda value plus calendar days is judged "
 		"only when the target is a Monday-Friday day (a weekend day has no bizda name; skipped, counted). "
+		"the documented spellings of the units (nD nW upper/lower case, unit d omitted, sign omitted) must parse to the same duration as the canonical text. "
 		"non-trivial = the target lies in another month, year or ISO week-year than the start", NCAL);
 	ex_meta("bound", "%s tier: all 911,280 days x %d calendars x ( +-Nd with N in [0,%d] + {59,60,365,366,367,730,731,1461} (%d counts) ; "
 		"+-Nw with N in [0,%d] + {52,53,104,105,209,261} (%d counts) ); on the seam days (the four 8-year windows 1601-08 1897-1904 "
@@ -485,6 +500,9 @@ main(int argc, char *argv[])
 	ex_meta("binding", "dadd binary of the same build, all 911,280 days (bizda: the Monday-Friday days) on stdin per (calendar, duration[, -f]) "
 		"entry, byte-compared with the library-level observation");
 
+	if (ex.worker == 0) {
+		check_spellings(spellings, NSPELL);
+	}
 	/* slices: one per year */
 	for (int y = RC_MIN_YEAR; y <= RC_MAX_YEAR && !ex_expired_now(); y++) {
 		if (!ex_mine((uint64_t)(y - RC_MIN_YEAR))) {
